@@ -139,7 +139,10 @@ Theorem C11_missed_clamp : forall target deadline interval now prev,
 Proof. exact missed_clamp. Qed.
 Print Assumptions C11_missed_clamp.
 
-(* 8. never early: every fire event of a run at cached time `now` is for a timer whose target the loop read <= now *)
+(* 8. never early: every fire event of a run at cached time `now` is for a timer whose target the loop read <= now.
+   DEFINITIONAL: this restates the loop guard of run_loop (`if target > now then exit`) for every iteration; its content
+   is that run_loop mirrors _dispatch_timers_run (event.c:1041-1060, tied by the white-box and trace correspondences) and
+   that no other path of the model emits a fire event *)
 Theorem C11_never_early : forall fuel st tidx now ev st' ev' fin,
   run_loop fuel st tidx now ev = (st', ev', fin) ->
   exists new, ev' = ev ++ new /\ forall t p n tg, In (t, p, n, tg) new -> n = now /\ tg <= now.
@@ -238,6 +241,10 @@ Print Assumptions C11_armed_covered.
    a fired dispatch_after; source not cancelled, not suspended; target < INT64_MAX):
      either a wakeup of its source is pending (x_enq: the source is enqueued or its drainer will look again),
      or the timer is in its heap and covered as in 10c.
+   RESTRICTIONS of the histories (xguard): single-level suspension (t_susp is a flag, not dq_state's suspend count: no second
+   dispatch_suspend before the matching dispatch_resume), no dispatch_source_cancel before dispatch_activate (source.c:649-652
+   handles it, the model does not), no dispatch_suspend of a source that was not activated, dispatch_after sources are never
+   cancelled / reconfigured, at most one of the three clocks per source.
    BOUNDARY (not proved here, C01/C04): "x_enq" is an abstraction of the lane's enqueue / DIRTY protocol; that an enqueued,
    unsuspended source is eventually invoked, and that a dx_wakeup racing with an invoke is not lost, are the lane
    properties.  10c'' shows what the invokes behind a pending wakeup do. *)
@@ -282,7 +289,9 @@ Theorem C11_kernel_expiry_refines : forall st i ks,
 Proof. exact kernel_expired_refines. Qed.
 Print Assumptions C11_kernel_expiry_refines.
 
-(* 11. dispatch_source_set_timer: the timer follows only the new settings *)
+(* 11. dispatch_source_set_timer: the timer follows only the new settings.
+   DEFINITIONAL: obtained by unfolding `configure` (plus: resume does not touch the values); its content is that
+   `configure` mirrors _dispatch_timer_unote_configure (event.c:865-895), which the correspondences check *)
 Theorem C11_set_timer_replaces : forall st t c tg dl itv,
   t_cfg (tm st t) = Some (c, tg, dl, itv) ->
   let x := tm (configure st t) t in
